@@ -107,7 +107,7 @@ def gen(rng, tier, spec):
         if rng.chance(1, 2):
             prog.append([DETACH, fid[0]])
         else:
-            s = rng.below(2)
+            s = rng.below(2) + (100 if rng.chance(1, 3) else 0)   # slots >= 100: void-returning functor, future<void>
             prog.append([ASYNC, fid[0], s])
             slots.add(s)
 
@@ -165,8 +165,8 @@ def gen(rng, tier, spec):
             elif fid[0] < MAXFID:
                 fid[0] += 1
                 progs[t].append([DETACH, fid[0]])
-        for s in (0, 1):
-            if rng.chance(1, 2):
+        for s in (0, 1, 100, 101):
+            if rng.chance(1, 2 if s < 100 else 4):
                 progs[t].append([FUT_GET, s])
     # throw plan: indices of user-code invocations (at most one per submitted functor)
     thr = []
@@ -238,6 +238,7 @@ class Walk:
         cand = [None] * nt              # candidate settling access of each thread (see mon_stranded)
         acq_pos = [None] * nt           # position of the thread's latest acquisition of the outer mutex still held
         lcand = [None] * nt             # a load() invoked with nothing held and nobody in flight, undisturbed so far
+        mcand = [None] * nt             # the same for a modify_detach / modify_async call
         for i, (t, k, o, v, m) in zip(self.pos, self.ev):
             # a candidate access of another thread is spoiled by any event of this thread
             for u in range(nt):
@@ -245,6 +246,7 @@ class Walk:
                     cand[u] = None
                 if u != t:
                     lcand[u] = None
+                    mcand[u] = None
             if k == K['INVOKE']:
                 opidx[t] += 1
                 prog = case['progs'][t]
@@ -262,14 +264,27 @@ class Walk:
                         cand[t] = {'t': t, 'i': i, 'op': op, 'submitted': set(inv) - ({op[1]} if op[0] in SUBMIT else set())}
                         if op[0] == LOAD:
                             lcand[t] = {'i': i, 'submitted': set(inv)}
+                        if op[0] in SUBMIT:
+                            mcand[t] = {'i': i, 'submitted': set(inv)}
                 continue
             op = cur_op[t]
             if k in (K['RET'], K['CATCH']):
                 if op is not None:
+                    if op[0] in SUBMIT and mcand[t] is not None:
+                        missing = sorted(f for f in mcand[t]['submitted'] if f not in call)
+                        if missing:
+                            self.bad('modify_strands', 'modify call of thread %d (functor %d, invoked at line %d with no handle held and no other '
+                                     'operation in flight, and run alone) returned at line %d without having applied %s' % (
+                                         t, op[1], mcand[t]['i'], i,
+                                         'its own function' if missing == [op[1]] else 'the modification(s) %s accepted before it%s' % (
+                                             [f for f in missing if f != op[1]], ' and its own function' if op[1] in missing else '')))
+                        mcand[t] = None
                     if op[0] in SUBMIT:
                         ret[op[1]] = i
                         if k == K['CATCH'] and not (op[0] == DETACH and op[1] in threw and call.get(op[1], -1) > op_start[t]):
-                            self.bad('exn', 'op %s of thread %d ended with an exception at line %d' % (op, t, i))
+                            self.bad('exn', 'op %s of thread %d ended with an exception at line %d%s' % (
+                                op, t, i, ': modify_async itself threw - an exception of the modification function belongs into the '
+                                          'returned future, nothing else may escape' if op[0] == ASYNC else ''))
                         if k == K['RET'] and op[0] == DETACH and op[1] in threw and call.get(op[1], -1) > op_start[t] and calls_by.get(op[1]) == t:
                             self.bad('exn', 'modify_detach(%d) swallowed the exception of its functor on the direct path (line %d)' % (op[1], i))
                         if op[0] == ASYNC:
@@ -300,7 +315,7 @@ class Walk:
                             elif v == -3:
                                 if f not in threw:
                                     self.bad('future', 'future of functor %d reports an exception the functor did not throw (line %d)' % (f, i))
-                            elif f in threw or f not in wend or wend[f][1] != v:
+                            elif f in threw or f not in wend or (0 if op[1] >= 100 else wend[f][1]) != v:
                                 self.bad('future', 'future of functor %d returned %d at line %d, the functor produced %s' % (f, v, i, wend.get(f)))
                     if op[0] == LOAD and k == K['RET'] and v != last_read[t]:
                         self.bad('payload', 'load of thread %d returned %d at line %d but read %s' % (t, v, i, last_read[t]))
@@ -385,7 +400,10 @@ class Walk:
                 if v != pay:
                     self.bad('payload', 'thread %d read %d at line %d, the payload is %d' % (t, v, i, pay))
             elif k == K['FAULT']:
-                self.bad('fault', 'overlapping payload windows: fault code %d by thread %d at line %d' % (v, t, i))
+                if v == 9:
+                    self.bad('fault', 'thread %d list-initialised a payload from a payload at line %d (fault code 9): the copy is a one-element wrapper, not the stored value' % (t, i))
+                else:
+                    self.bad('fault', 'overlapping payload windows: fault code %d by thread %d at line %d' % (v, t, i))
         self.inv, self.ret, self.call, self.threw, self.wend, self.pay, self.held = inv, ret, call, threw, wend, pay, held
 
     def grant(self, c, j, call, final):
@@ -702,7 +720,7 @@ def mon_flag_not_atomic(case, lines):
         if k in (K['RET'], K['CATCH']):
             if c in (DETACH, ASYNC) and failed_try[t] and not stored[t]:
                 return ('thread %d: the modification queued by the call invoked at trace line %d was published without an atomic '
-                        'store of true to the pending flag: the flag is not an atomic object any more' % (t, start[t]))
+                        'store of true to the pending flag (the flag is not raised by this call, or it is no longer an atomic object)' % (t, start[t]))
             if c in SHARED_OPS + (LOAD,) and not seen_load[t] and k == K['RET'] and v != -1:
                 return ('thread %d: the reader entry invoked at trace line %d (operation %d) performed no atomic load of the pending '
                         'flag: the unlocked pre-check reads a non-atomic flag' % (t, start[t], c))
@@ -723,6 +741,13 @@ def mon_flag_not_atomic(case, lines):
     return None
 
 
-MONITORS = {'load_stale': mon_load_stale, 'flag_not_atomic': mon_flag_not_atomic, 'functor_under_list_lock': mon_functor_under_list_lock, 'reader_refused_by_reader': mon_reader_refused_by_reader, 'try_null_iff': mon_try_null_iff, 'try_blocks': mon_try_blocks, 'fault': mon_fault, 'twice': mon_twice, 'exclusive': mon_exclusive, 'order': mon_order, 'stranded': mon_stranded,
+def mon_modify_strands(case, lines):
+    """C06: a modify_detach / modify_async invoked while no handle is held and no other operation is in flight, and
+    run alone, takes the direct path: by the time it returns it has applied every modification accepted before it
+    and its own function (def_next_access_drains / def_solo_trylock_succeeds for the modify calls)"""
+    return _first(_walk(case, lines), 'modify_strands')
+
+
+MONITORS = {'modify_strands': mon_modify_strands, 'load_stale': mon_load_stale, 'flag_not_atomic': mon_flag_not_atomic, 'functor_under_list_lock': mon_functor_under_list_lock, 'reader_refused_by_reader': mon_reader_refused_by_reader, 'try_null_iff': mon_try_null_iff, 'try_blocks': mon_try_blocks, 'fault': mon_fault, 'twice': mon_twice, 'exclusive': mon_exclusive, 'order': mon_order, 'stranded': mon_stranded,
             'lost': mon_lost, 'payload': mon_payload, 'future': mon_future, 'exn': mon_exn, 'lock_leaked': mon_lock_leaked,
             'deadlock': mon_deadlock, 'seq_cst': mon_seq_cst, 'trace': mon_trace}
